@@ -71,6 +71,9 @@ def run_thorough(prop, mod):
     finally:
         facts.load = orig_load
     rep.configs = per_cfg
+    if os.environ.get("FCGI_VERIF_NO_CORPUS"):
+        # development aid only (never set by a registered command): configurations without the self-validation corpora
+        return rep.finish(captured.get("explanation", ""), not_decided=captured.get("not_decided", ""))
     # self-validation corpus
     st = os.path.join(check.VERIF, "selftest", "run.py")
     r = subprocess.run([sys.executable, st, prop], capture_output=True, text=True)
